@@ -89,10 +89,49 @@ pub fn gen_case_indexed(prop: &str, rng: &mut Rng, tier: Tier, run: u64) -> Case
 
 fn gen_case_indexed_raw(prop: &str, rng: &mut Rng, tier: Tier, run: u64) -> Case {
     if prop == "C08" {
-        let reserved = if tier == Tier::Quick { 1 } else { 6 };
+        let reserved = if tier == Tier::Quick { 2 } else { 8 };
         if run < reserved {
-            return crate::props_sort::gen_c08_with(rng, tier, true);
+            let mut c = crate::props_sort::gen_c08_with(rng, tier, true);
+            use crate::case::Entries;
+            if run % 2 == 1 {
+                // odd indices: preallocated buffer (no reallocation) with a budget that is not a multiple
+                // of any large power of two
+                if let Case::Sort(s) = &mut c {
+                    s.knobs.allow_realloc = false;
+                    s.knobs.threshold_req = Some(*rng.pick(&[15_000_000usize, 12_345_678, 10 * 1024 * 1024 + 1, 11_000_001]));
+                    // large entries: the 16-byte bookkeeping per entry is then under 1 % of the volume, so the
+                    // measured volume tracks the buffer size closely
+                    if let Entries::Counter { n, vlen, .. } = &mut s.inserts {
+                        let total = *n * (*vlen as u64 + 8);
+                        *vlen = 2000;
+                        *n = total / 2008;
+                    }
+                }
+            }
+            return c;
         }
+    }
+    if prop == "C06" && run < 1 {
+        // "any number of sources": a little more than 2^16 one-entry sources over two keys
+        use crate::case::*;
+        let k = 65536 + rng.urange(1, 40);
+        let mut sources = Vec::with_capacity(k);
+        for i in 0..k {
+            let key = if rng.chance(1, 2) { b"a".to_vec() } else { b"b".to_vec() };
+            sources.push(FileSpec { knobs: Knobs::default_knobs(), entries: Entries::Literal(vec![(B(key), B(crate::gen::record(i as u32, 0)))]) });
+        }
+        return Case::Merge(MergeCase {
+            attach: vec![1; k],
+            sources,
+            mf: crate::env::MergeKind::Concat,
+            out_mode: 0,
+            out_knobs: Knobs::default_knobs(),
+            env: crate::env::EnvPlan::whole(),
+        });
+    }
+    if (prop == "C09" || prop == "C02") && run < if tier == Tier::Quick { 3 } else { 9 } {
+        // a file whose blocks and index lie beyond 4 GiB (sparse sink: filler bodies are holes)
+        return crate::props_file::gen_big(rng, [0u8, 1, 2][run as usize % 3]);
     }
     if prop == "C17" && run < if tier == Tier::Quick { 1 } else { 3 } {
         // hook-free sorter at the shipped defaults (1 GiB budget, growing buffer): ~150 MB of inserts take
